@@ -25,8 +25,18 @@ class Variant:
     note: str = ""
 
 
+REPRINT = Variant("whole package re-printed by ast.unparse (comments, layout and line numbers change)", "benign", [])
+
+
 def apply(sources: Dict[str, str], v: Variant) -> Optional[Dict[str, str]]:
     out = dict(sources)
+    if v is REPRINT or v.name == REPRINT.name:
+        import ast
+
+        for mod, src in sources.items():
+            if not mod.startswith(("schema:", "file:")):
+                out[mod] = ast.unparse(ast.parse(src)) + "\n"
+        return out
     for mod, old, new in v.edits:
         src = out.get(mod)
         if src is None or src.count(old) != 1:
@@ -74,7 +84,7 @@ def _one(job):
 
 
 def run(prop: str, sources: Dict[str, str], base_keys, variants: List[Variant], jobs: int = 16) -> dict:
-    jobs_list = [(prop, sources, sorted(base_keys), v) for v in variants]
+    jobs_list = [(prop, sources, sorted(base_keys), v) for v in list(variants) + [REPRINT]]
     if not jobs_list:
         return {"lines": ["self-validation: no variants"], "summary": {}, "failed": 0}
     n = max(1, min(jobs, len(jobs_list)))
